@@ -99,6 +99,8 @@ def _flag_true(tr, edges, field):
 
 
 def run(facts, tr, rep):
+    _n_ops = check_no_panicking_time_arith(facts, tr, rep, "C16.NO-PANIC-ARITH", facts.crates[CRATE].bodies)
+    rep.note("panicking Instant/Duration operators examined in the crate: %d" % _n_ops)
     sbs = service_call_bodies(facts, crate=CRATE)
     if not sbs:
         rep.anchor_missing("Service::call of the reconnect service")
